@@ -163,6 +163,12 @@ func runC23(r *lib.Run) {
 					if editable(l) && (strings.HasPrefix(l.Val, "string:") || strings.HasPrefix(l.Val, "uint") || strings.HasPrefix(l.Val, "int") || strings.HasPrefix(l.Val, "bool:")) {
 						c = append(c, j)
 					}
+					// a leaf-list whose entries are reordered is a changed value as well
+					if l.Field != nil && l.IsList && !strings.Contains(l.Val, "int64:") && !strings.Contains(l.Val, "float64:") && !strings.Contains(l.Val, "bin:") && !strings.Contains(l.Val, "empty:") {
+						if vs := parseLL(l.Val); len(vs) >= 2 && vs[0] != vs[len(vs)-1] {
+							c = append(c, j)
+						}
+					}
 				}
 				if len(c) == 0 {
 					edit = "none"
@@ -172,6 +178,11 @@ func runC23(r *lib.Run) {
 				target = leaves[j]
 				nl := *target
 				switch {
+				case nl.IsList:
+					vs := parseLL(nl.Val)
+					vs[0], vs[len(vs)-1] = vs[len(vs)-1], vs[0]
+					nl.Val = llString(vs)
+					r.Hit("edit:change:leaf-list-reordered")
 				case strings.HasPrefix(nl.Val, "string:"):
 					nl.Val += "-changed"
 				case strings.HasPrefix(nl.Val, "bool:true"):
